@@ -91,6 +91,9 @@ func c7CLI(c *Cfg, repo string, r *Rng) {
 		g := &c7gen{r: gr.Sub(), counts: map[string]int{}, maxDepth: 1 + i%3, conc: i%3 == 2}
 		progs = append(progs, c7prog{name: fmt.Sprintf("cligen#%d", i), stream: "cli", src: g.Program()})
 	}
+	// the "repeated declarations" family witnesses (c07_fam.go), last so that the programs above keep
+	// their indices
+	progs = append(progs, c7FamWitnesses()...)
 	var wg sync.WaitGroup
 	sem := make(chan struct{}, 8)
 	for i, p := range progs {
